@@ -225,3 +225,141 @@ def _deref_local(f, x, at_ev):
     ds = [d for _, _, d in f.events(lambda q: q["k"] == "decl" and q["var"] == v and q.get("init") is not None)]
     ds = [d for d in ds if f.path_exists(_pos(f, d), lambda z: z is at_ev, lambda z: any(z is o for o in ds if o is not d), lift=0) is not None]
     return ds[0]["init"] if len(ds) == 1 else x
+
+
+NODE_UNITS = r"/Simbody/src/(RigidBodyNodeSpec|RigidBodyNode_LoneParticle|RigidBodyNode_Weld)\.cpp$"
+NODE_HDR = r"/Simbody/src/RigidBodyNodeSpec\.h$"
+
+
+def index_space(chk, P, methods=None, rule="INDEXSPACE"):
+    """Sibling agreement between the generic node template and the hand-written node classes: a pointer parameter that
+    RigidBodyNodeSpec<dof> accesses through fromU()/toU() is a u-space array, one it accesses through fromQ()/toQ() a q-space array; every
+    other implementation of the same virtual (lone particle, weld, ground) must subscript that parameter with its uIndex / qIndex
+    respectively.  (The two index spaces differ as soon as a quaternion-capable mobilizer precedes the body.)"""
+    tab = {}
+    for f in P.all_fns():
+        if "RigidBodyNodeSpec" in (f.cls or "") and f.d.get("tmpl") == "pattern":
+            ps = [p_[0] for p_ in f.d["params"]]
+            sp = {}
+            for _, _, e in f.events():
+                for x in (e.get("x"), e.get("init"), e.get("rhs"), e.get("lhs"), e.get("val")):
+                    for y in sx_find(x, lambda y: y[0] in ("dcall", "call") and str(y[1]).split("::")[-1] in ("fromU", "toU", "fromQ", "toQ") and y[3] and
+                                     isinstance(y[3][0], list) and y[3][0][:1] == ["var"] and y[3][0][1] in ps):
+                        sp[ps.index(y[3][0][1])] = str(y[1]).split("::")[-1][-1].lower()
+            if sp:
+                tab[(f.name.split("::")[-1], len(ps))] = sp
+    chk.shape(len(tab) >= 10, rule, "generic-template:spaces-learned", "", "%d virtuals of RigidBodyNodeSpec<dof> with u- / q-space pointer parameters" % len(tab))
+    n = 0
+    for f in sorted(P.all_fns(), key=lambda f: f.id):
+        key = (f.name.split("::")[-1], len(f.d.get("params", [])))
+        if key not in tab or "RigidBodyNodeSpec" in (f.cls or "") or f.d.get("tmpl") == "pattern" or not f.cls:
+            continue
+        if methods is not None and key[0] not in methods:
+            continue
+        ps = [p_[0] for p_ in f.d["params"]]
+        for pos, space in sorted(tab[key].items()):
+            pv = ps[pos]
+            subs = []
+            for _, _, e in f.events():
+                for x in (e.get("x"), e.get("init"), e.get("rhs"), e.get("lhs"), e.get("val")):
+                    for y in sx_find(x, lambda y: y[0] in ("idx", "opc") and (y[0] == "idx" or y[1] == "[]") and (y[1] if y[0] == "idx" else y[2]) == ["var", pv]):
+                        subs.append(y[2] if y[0] == "idx" else y[3])
+            for k, ix in enumerate(subs):
+                n += 1
+                names = {str(z[2]).split("::")[-1] for z in sx_find(ix, lambda z: z[0] == "mem")} | {str(z[1]).split("::")[-1] for z in sx_find(ix, lambda z: z[0] in ("call", "dcall"))}
+                want = {"u": {"uIndex", "getUIndex"}, "q": {"qIndex", "getQIndex"}}[space]
+                other = {"u": {"qIndex", "getQIndex"}, "q": {"uIndex", "getUIndex"}}[space]
+                chk.judge(bool(names & want) and not (names & other), rule, "%s::%s:%s[%d]" % (f.cls.split("::")[-1], key[0], pv, k), f.loc,
+                          "%s is a %s-space array (the generic node reads it with from%s/to%s) but is subscripted with %s" % (pv, space, space.upper(), space.upper(), sx_str(ix)))
+    return n
+
+
+def _written_params(f):
+    """positions of pointer parameters an element of which [nodeNum] / [0] is assigned in f (directly or through a reference local bound to it)
+    -> list of the write events"""
+    ps = [p_[0] for p_ in f.d.get("params", [])]
+    refs = {}
+    for _, _, d in f.events(lambda q: q["k"] == "decl" and str(q.get("ty", "")).rstrip().endswith("&") and not str(q.get("ty", "")).lstrip().startswith("const") and isinstance(q.get("init"), list)):
+        x = d["init"]
+        if x[0] in ("idx", "opc") and (x[0] == "idx" or x[1] == "[]"):
+            base = x[1] if x[0] == "idx" else x[2]
+            ix = x[2] if x[0] == "idx" else x[3]
+            if not (isinstance(base, list) and base[:1] == ["var"] and base[1] in ps) and isinstance(ix, list) and ix[:1] == ["var"] and ix[1] in ps:
+                base, ix = ix, base         # (a dependent subscript may be recorded index-first)
+            if isinstance(base, list) and base[:1] == ["var"] and base[1] in ps and (sx_find(ix, lambda z: z[0] == "mem" and str(z[2]).endswith("::nodeNum")) or _lit(ix, ("0",))):
+                refs[d["var"]] = base[1]
+    out = {}
+    for b, i, e in f.events(lambda q: bool(ev_write(q)) and ev_write(q)[1] in ("=", "+=", "-=")):
+        lhs = ev_write(e)[0]
+        tgt = None
+        if isinstance(lhs, list) and lhs[:1] == ["var"] and lhs[1] in refs:
+            tgt = refs[lhs[1]]
+        elif isinstance(lhs, list) and lhs[0] in ("idx", "opc") and (lhs[0] == "idx" or lhs[1] == "[]"):
+            base = lhs[1] if lhs[0] == "idx" else lhs[2]
+            ix = lhs[2] if lhs[0] == "idx" else lhs[3]
+            if not (isinstance(base, list) and base[:1] == ["var"] and base[1] in ps) and isinstance(ix, list) and ix[:1] == ["var"] and ix[1] in ps:
+                base, ix = ix, base
+            if isinstance(base, list) and base[:1] == ["var"] and base[1] in ps and (sx_find(ix, lambda z: z[0] == "mem" and str(z[2]).endswith("::nodeNum")) or _lit(ix, ("0",))):
+                tgt = base[1]
+        elif isinstance(lhs, list) and lhs[0] in ("dcall", "call") and str(lhs[1]).split("::")[-1] == "toB" and lhs[3] and isinstance(lhs[3][0], list) and lhs[3][0][:1] == ["var"] and lhs[3][0][1] in ps:
+            tgt = lhs[3][0][1]
+        if tgt is not None:
+            out.setdefault(ps.index(tgt), []).append(e)
+    return out
+
+
+def _caller_visible(PR, mname, nparams, pos):
+    """is the array handed to node routine `mname` at parameter position pos, at some call site in the matter subsystem's operators, storage
+    that belongs to the operator's CALLER (a non-const reference parameter of the operator) rather than a scratch local?"""
+    for g in PR.all_fns():
+        gp = {p_[0]: p_[1] for p_ in g.d.get("params", [])}
+        for _, _, e in g.calls():
+            if str(e.get("fn", "")).split("::")[-1] != mname or "RigidBodyNode" not in str(e.get("fn", "")):
+                continue
+            a = call_args(e)
+            if len(a) != nparams:
+                continue
+            x = a[pos]
+            for _ in range(3):
+                v = var_of(x) if isinstance(x, list) else None
+                roots = {y[1] for y in sx_find(x, lambda y: y[0] == "var")} if isinstance(x, list) else set()
+                hit = [r for r in roots if r in gp and gp[r].rstrip().endswith("&") and not gp[r].lstrip().startswith("const")]
+                if hit:
+                    return True
+                ds = [d for _, _, d in g.events(lambda q: q["k"] == "decl" and q["var"] in roots and isinstance(q.get("init"), list))]
+                if len(ds) != 1:
+                    break
+                x = ds[0]["init"]
+    return False
+
+
+def body_outputs(chk, P, methods=None, rule="OUTWRITE", PR=None):
+    """Sibling agreement on outputs: a per-body output array (SpatialVec* / Real* parameter) whose own entry [nodeNum] the generic node
+    template assigns in a pass must be assigned, on every path, by every other implementation of that pass too (Ground writes its entry 0):
+    the sweeps never pre-zero these arrays, so an entry a node leaves alone keeps whatever the caller's vector held."""
+    gen = {}
+    for f in P.all_fns():
+        if "RigidBodyNodeSpec" in (f.cls or "") and f.d.get("tmpl") == "pattern":
+            w = _written_params(f)
+            w = {k: v for k, v in w.items() if "SpatialVec" in f.d["params"][k][1]}
+            if w:
+                gen[(f.name.split("::")[-1], len(f.d["params"]))] = set(w)
+    chk.shape(len(gen) >= 4, rule, "generic-template:body-outputs-learned", "", "%d passes of RigidBodyNodeSpec<dof> assign their own entry of a per-body output array" % len(gen))
+    n = 0
+    for f in sorted(P.all_fns(), key=lambda f: f.id):
+        key = (f.name.split("::")[-1], len(f.d.get("params", [])))
+        if key not in gen or "RigidBodyNodeSpec" in (f.cls or "") or f.d.get("tmpl") == "pattern" or not f.cls:
+            continue
+        if methods is not None and key[0] not in methods:
+            continue
+        w = _written_params(f)
+        for pos in sorted(gen[key]):
+            pv = f.d["params"][pos][0]
+            if PR is not None and not _caller_visible(PR, key[0], key[1], pos):
+                continue        # a scratch array of the operator: an entry nobody reads need not be written
+            n += 1
+            evs = w.get(pos, [])
+            byp = f.path_exists(None, "exit", lambda q: any(q is e for e in evs), lift=0) if evs else [f.entry]
+            chk.judge(bool(evs) and byp is None, rule, "%s::%s:%s[own entry]" % (f.cls.split("::")[-1], key[0], pv), f.loc,
+                      "the generic node assigns its own entry of %s in this pass; this implementation does not on every path, so the entry keeps whatever the caller's array held" % pv, byp)
+    return n
